@@ -5,7 +5,9 @@
            `run` below is the meaning given to a row's ordered effect list
            (acl.enforce / conditional acl.enforce / guards / first data access)
      mistral/policies/*.py list_rules()                       -> `rule` rows of Gen/ApiTable.v
-     mistral/api/access_control.py:enforce (raises NotAllowedException, http 403) -> `Enforce` case of `run`
+     mistral/api/access_control.py:enforce (raises NotAllowedException, http 403) -> `Enforce` case of `run`;
+        its decision (oslo_policy Enforcer.authorize on the loaded rules)   -> enforce_allows / authorize / eval
+        (suites policy_eval, callers)
      mistral/utils/rest_utils.py:wrap_wsme/pecan_controller_exception (http_code of the raised
         Mistral exception becomes the status)                 -> the status component of `run`
      mistral/api/controllers/v2/execution.py:ExecutionsController.put      -> exec_put
@@ -477,3 +479,96 @@ Definition call_name (c : engine_call) : string :=
 
 Definition show_outcome (o : outcome) : nat * string * (bool * bool * bool) :=
   (o_status o, call_name (o_call o), (o_upd_desc o, o_upd_env o, o_deleted o)).
+
+(* ------------------------------------------------------------------ *)
+(* 5. The policy decision behind acl.enforce                            *)
+(* mistral/api/access_control.py:enforce delegates to oslo.policy
+   Enforcer.authorize(rule, target, creds) with
+     target = {project_id: <caller's project>, user_id: <caller's user>}
+     creds  = context.to_policy_values() + {is_admin: context.is_admin}
+   (shape extracted by translate/tr_apitable.py, which fails closed on anything else, in
+   particular on a return before the enforcer call).  The decision is a function of the rule
+   expression assigned to the rule in the loaded policy, the caller and the target - there is
+   no case for administrators other than what the rule expressions say.
+   oslo_policy/_checks.py: TrueCheck "@", FalseCheck "!", RoleCheck "role:x" (case-insensitive),
+   RuleCheck "rule:x" (unknown name: False), GenericCheck "key:value" on the creds keys is_admin /
+   project_id / user_id with a literal or %(project_id)s / %(user_id)s, and / or / not.
+   Correspondence: suites policy_eval (real acl.enforce) and callers (WSGI app) of C16.py. *)
+
+Inductive ckey := KIsAdmin | KProject | KUser.
+Inductive cmatch := MLit (s : string) | MTargetProject | MTargetUser.
+
+Inductive check :=
+  | CTrue | CFalse
+  | CRole (r : string)
+  | CRule (n : string)
+  | CCred (k : ckey) (m : cmatch)
+  | CAnd (a b : check) | COr (a b : check) | CNot (a : check).
+
+Record caller := mkCaller { c_is_admin : bool; c_roles : list string; c_project : string; c_user : string }.
+Record ptarget := mkTarget { t_project : string; t_user : string }.
+
+Definition policy := list (string * check).
+
+Fixpoint plookup (pol : policy) (n : string) : option check :=
+  match pol with
+  | [] => None
+  | (k, v) :: t => if String.eqb k n then Some v else plookup t n
+  end.
+
+(* an operator's policy file entry replaces the registered default *)
+Definition override (pol : policy) (n : string) (k : check) : policy := (n, k) :: pol.
+
+Definition lower_ascii (a : ascii) : ascii :=
+  let n := nat_of_ascii a in
+  if (Nat.leb 65 n && Nat.leb n 90)%bool then ascii_of_nat (n + 32) else a.
+
+Fixpoint lower (s : string) : string :=
+  match s with EmptyString => EmptyString | String a t => String (lower_ascii a) (lower t) end.
+
+Definition cred_text (c : caller) (k : ckey) : string :=
+  match k with
+  | KIsAdmin => if c_is_admin c then "True" else "False"
+  | KProject => c_project c
+  | KUser => c_user c
+  end.
+
+Definition match_text (t : ptarget) (m : cmatch) : string :=
+  match m with MLit s => s | MTargetProject => t_project t | MTargetUser => t_user t end.
+
+(* fuel bounds the depth of rule references and of the expression *)
+Fixpoint eval (fuel : nat) (pol : policy) (c : caller) (t : ptarget) (k : check) : bool :=
+  match fuel with
+  | O => false
+  | S f =>
+    match k with
+    | CTrue => true
+    | CFalse => false
+    | CRole r => existsb (fun x => String.eqb (lower x) (lower r)) (c_roles c)
+    | CRule n => match plookup pol n with Some k' => eval f pol c t k' | None => false end
+    | CCred key m => String.eqb (match_text t m) (cred_text c key)
+    | CAnd a b => eval f pol c t a && eval f pol c t b
+    | COr a b => eval f pol c t a || eval f pol c t b
+    | CNot a => negb (eval f pol c t a)
+    end
+  end.
+
+Definition policy_fuel : nat := 64.
+
+Definition authorize (pol : policy) (c : caller) (t : ptarget) (rule : string) : bool :=
+  match plookup pol rule with
+  | Some k => eval policy_fuel pol c t k
+  | None => false
+  end.
+
+Definition own_target (c : caller) : ptarget := mkTarget (c_project c) (c_user c).
+
+(* acl.enforce(rule, ctx) does not raise *)
+Definition enforce_allows (pol : policy) (c : caller) (rule : string) : bool :=
+  authorize pol c (own_target c) rule.
+
+(* the environment of `run` that a loaded policy and a caller determine *)
+Definition policy_env (pol : policy) (c : caller) (holds : cond -> bool) (fires : nat -> bool) : env :=
+  mkEnv (fun r => negb (enforce_allows pol c r)) holds fires.
+
+Definition show_bool (b : bool) : string := if b then "allow" else "deny".
